@@ -411,6 +411,35 @@ def run_unit(unit, rng, ctx):
                         continue
                 ctx.check(same, f'{w}: site states differ beyond relabelling', wit)
                 ctx.count(f'auto_radius_transformations:{name}')
+    # density volumes of samples EXACTLY on voxel edges (incl. 0.0): on axes whose voxel count is a power of two the
+    # coordinates are multiples of 1/64, so the edge k/n, the shift, the wrap and any representation switch are exact
+    # in binary floating point and the translated volume is well defined (other axes: samples well inside voxels)
+    if unit['i'] % 4 == 3:
+        res2 = float(lengths.min() / 4.0001)
+        dims2 = np.array([int(L // res2) for L in lengths])
+        T2, N2 = int(rng.integers(2, 8)), int(rng.integers(1, 4))
+        cd = np.empty((T2, N2, 3))
+        for c_ in range(3):
+            if dims2[c_] in (2, 4, 8):
+                cd[:, :, c_] = rng.integers(0, 64, size=(T2, N2)) / 64.0
+                edge = rng.uniform(size=(T2, N2)) < 0.4
+                cd[:, :, c_] = np.where(edge, rng.integers(0, dims2[c_], size=(T2, N2)) / dims2[c_], cd[:, :, c_])
+            else:
+                cd[:, :, c_] = (rng.integers(0, dims2[c_], size=(T2, N2)) + rng.uniform(0.3, 0.7, size=(T2, N2))) / dims2[c_]
+        k2 = tuple(int(x) for x in rng.integers(0, dims2))
+        v2 = np.array(k2) / dims2
+        with warnings.catch_warnings():
+            warnings.simplefilter('ignore')
+            va = gen.make_trajectory(sys_.matrix, gen.species_objects(['Li'] * N2), cd).to_volume(resolution=res2)
+            tb = gen.make_trajectory(sys_.matrix, gen.species_objects(['Li'] * N2), np.mod(cd + v2, 1))
+            if rng.integers(2):
+                _ = tb.displacements
+            vb = tb.to_volume(resolution=res2)
+        da, db = np.asarray(va.data), np.asarray(vb.data)
+        if ctx.check(da.shape == db.shape == tuple(dims2), f'{what} [samples on voxel edges]: grids {da.shape} / {db.shape}, expected {tuple(dims2)}', wit):
+            ctx.check(np.array_equal(db, np.roll(da, k2, axis=(0, 1, 2))), f'{what} [samples on voxel edges]: density volume of the system translated by {k2} voxels is not the original rolled by {k2}', {**wit, 'coords': cd, 'shift': k2, 'grid': dims2})
+        ctx.count('edge_sample_volumes_compared')
+        ctx.count('samples_exactly_on_a_voxel_edge', int(sum(np.sum(cd[:, :, c_] * dims2[c_] == np.round(cd[:, :, c_] * dims2[c_])) for c_ in range(3) if dims2[c_] in (2, 4, 8))))
     ctx.count('atom_frames_moved_through_a_face_by_translation', crossed)
     ctx.count(f'lattice:{sys_.kind}')
     ctx.count('jumps_in_original', len(base['jumps']))
